@@ -407,6 +407,53 @@ def load (b : Base) : Fetch → LoadResult
     | .ok os => .loaded os
     | .error e => .aborted (xerrName e)
 
+/-! ## Several external projects: the loop of `load_external_modules` -/
+
+/-- How the `except` handler that catches a failed fetch ends (read from the source by the translator,
+    `Gen.handlerExits`): it falls through to the rest of the loop body with the description reset to an
+    empty container, it goes on with the next project (`continue`), it ends the loop (`break`, `return`:
+    nothing follows the loop), or it re-raises. -/
+inductive Flow where
+  | proceed | next | stop | reraise
+  deriving DecidableEq, Repr
+
+def flowOfText (s : Str) : Flow :=
+  if s == ['c', 'o', 'n', 't', 'i', 'n', 'u', 'e'] then .next
+  else if s == ['b', 'r', 'e', 'a', 'k'] then .stop
+  else if s == ['r', 'e', 't', 'u', 'r', 'n'] then .stop
+  else if s == ['r', 'a', 'i', 's', 'e'] then .reraise
+  else .proceed
+
+/-- the way the handler catching `exc` ends -/
+def handlerFlow (exc : Str) : Flow := flowOfText ((Gen.handlerExits.lookup exc).getD [])
+
+/-- `for url in project.external.values(): try: <fetch> except ...: <handler>; <convert>` with `flow` saying
+    how the handler ends for each caught way of failing: `acc` holds the objects appended to the project's
+    lists so far (all external projects share the lists), the remaining projects are (location, outcome of
+    the fetch) in the order of the `external:` option.  An exception that escapes - from an uncaught fetch
+    failure or out of `dict2obj` - ends the whole run. -/
+def loadAllWith (flow : Str → Flow) : List (Base × Fetch) → List XObj → LoadResult
+  | [], acc => .loaded acc
+  | (b, .got doc) :: r, acc =>
+    match importDoc b doc with
+    | .ok os => loadAllWith flow r (acc ++ os)
+    | .error e => .aborted (xerrName e)
+  | (b, .failed exc) :: r, acc =>
+    if catches exc then
+      match flow exc with
+      | .proceed =>
+        -- `extModules = []`, then the rest of the body: nothing to convert
+        match importDoc b (.arr []) with
+        | .ok os => loadAllWith flow r (acc ++ os)
+        | .error e => .aborted (xerrName e)
+      | .next => loadAllWith flow r acc
+      | .stop => .loaded acc
+      | .reraise => .aborted exc
+    else .aborted exc
+
+/-- `load_external_modules(project)` as the code is. -/
+def loadAll (ps : List (Base × Fetch)) : LoadResult := loadAllWith handlerFlow ps []
+
 /-! ## Local before external -/
 
 /-- A documented thing with a name; `ext` says whether it came from an external project. -/
